@@ -24,6 +24,8 @@ func main() {
 		os.Exit(runIndexReplay(os.Args[2:]))
 	case "transform-replay":
 		os.Exit(runTransformReplay(os.Args[2:]))
+	case "deferred-replay":
+		os.Exit(runDeferredReplay(os.Args[2:]))
 	case "hashfuzz":
 		os.Exit(runHashFuzz(os.Args[2:]))
 	case "reader-replay":
